@@ -23,6 +23,13 @@ Proof. exact Verif.Properties.C06.C06_parsers_total. Qed.
 Check C07_css_parsers_total.
 Print Assumptions C07_css_parsers_total.
 
+(* ParseColorString (tokenizer + ParseOneComponentValue + ParseColor), both arithmetic instances *)
+Theorem C07_color_string_total :
+  ltac:(let t := type of Verif.Properties.C06.C06_color_total in exact t).
+Proof. exact Verif.Properties.C06.C06_color_total. Qed.
+Check C07_color_string_total.
+Print Assumptions C07_color_string_total.
+
 (* selector parser: forall s, exists r, parse_group s = Ok r *)
 Theorem C07_sel_parse_total :
   ltac:(let t := type of Verif.Properties.C05.C05_sel_parse_total in exact t).
